@@ -42,6 +42,12 @@ def run(chk):
         d3_mreq(chk, prog, names, m)
         d5_ports(chk, prog, names, m)
     no_overrides(chk, prog, names)
+    # which cycles exist, how long each is and which address it carries is the other half of this property: the
+    # per-encoding bus-trace rule of C03 is part of this check too (a 4-T wait issued as one bus call is delayed once)
+    from . import c03
+    from . import z80common as zc_
+    chk.rule("T-TRACE (shared with C03)", "every encoding's bus trace == documented M-cycle sequence: single internal T-states, addresses, lengths")
+    c03.traces(chk, zc_.program("A"))
     chk.floor("mreq-paths", 8)
     chk.floor("io-paths", 100)
     return chk.finish(EXPL)
